@@ -19,6 +19,9 @@ REGISTRY = {
     "C01": ("vverif.checks_algebra", "check_c01"),
     "C02": ("vverif.checks_algebra", "check_c02"),
     "C13": ("vverif.checks_algebra", "check_c13"),
+    "C09": ("vverif.checks_laws", "check_c09"),
+    "C10": ("vverif.checks_laws", "check_c10"),
+    "C11": ("vverif.checks_laws", "check_c11"),
 }
 
 
